@@ -246,45 +246,50 @@ def _interp_reference(t0, y0, t1, y1, t):
     return y0 + (t - t0) / (t1 - t0) * (y1 - y0)
 
 
-def r12_4(ctx):
+def r12_4(ctx, interpolant=True):
+    """`interpolant=False` (used by C01): only the clauses about the loop state -- emitting an output leaves it alone and
+    prev_* is the previous grid state -- and not the exact form of the value reported between two grid states."""
     rep, model = ctx.rep, ctx.model
     rep.rule("R12.4", "the value appended for an output time is the linear interpolant of (prev_t, prev_y) and "
                       "(curr_t, curr_y) at out_t, and prev_* is the previous accepted grid state")
     fi, prologue, for_node, while_node, tail, epilogue = ik.loop_structure(model)
-    # linear_interp itself
-    li = model.func(INTERP, "linear_interp")
-    rep.analysed(li)
-    # an output strictly inside the step: ta < tq < tb (the end point itself is R12.8's business)
-    it = Interp(model, ik.LoopHooks({}, ordering={"ta": Fraction(1), "tq": Fraction(2), "tb": Fraction(4)}))
-    a0, b0, a1, b1, tt = nf.sym("ta", True), nf.sym("ya"), nf.sym("tb", True), nf.sym("yb"), nf.sym("tq", True)
-    val = it.call_function(li, [], {"t0": a0, "y0": b0, "t1": a1, "y1": b1, "t": tt})
-    ref = _interp_reference(a0, b0, a1, b1, tt)
-    rep.check(nf.equal(val, ref), "R12.4", astq.loc(li), f"{li.key}::R12.4::formula",
-              f"linear_interp returns `{val}`, which is not the linear interpolant `{ref}`",
-              "y0 + (t - t0)/(t1 - t0) (y1 - y0)")
-    # the call in integrate
-    pt, _ = ik.run_body(model, False, tail, {}, ordering={"prev_t@head": Fraction(1), "out_t": Fraction(2),
-                                                          "curr_t@head": Fraction(4)})
-    w2 = ik.output_writes(pt.env.get("ys"))
-    if not (w2 is not None and len(w2) == 2):
-        raise AnalysisError("R12.4: could not isolate the value appended per output time", where=astq.loc(fi))
-    appended = w2[1][1]
+    if interpolant:
+        # linear_interp itself
+        li = model.func(INTERP, "linear_interp")
+        rep.analysed(li)
+        # an output strictly inside the step: ta < tq < tb (the end point itself is R12.8's business)
+        it = Interp(model, ik.LoopHooks({}, ordering={"ta": Fraction(1), "tq": Fraction(2), "tb": Fraction(4)}))
+        a0, b0, a1, b1, tt = nf.sym("ta", True), nf.sym("ya"), nf.sym("tb", True), nf.sym("yb"), nf.sym("tq", True)
+        val = it.call_function(li, [], {"t0": a0, "y0": b0, "t1": a1, "y1": b1, "t": tt})
+        ref = _interp_reference(a0, b0, a1, b1, tt)
+        rep.check(nf.equal(val, ref), "R12.4", astq.loc(li), f"{li.key}::R12.4::formula",
+                  f"linear_interp returns `{val}`, which is not the linear interpolant `{ref}`",
+                  "y0 + (t - t0)/(t1 - t0) (y1 - y0)")
+    # the output stage of integrate, for an output time strictly inside the last step; every path through it
+    inside = {"prev_t@head": Fraction(1), "out_t": Fraction(2), "curr_t@head": Fraction(4)}
+    tail_paths = ik.enumerate_paths(model, False, list(tail), ordering=inside)
     ref2 = _interp_reference(ik.H("prev_t"), ik.H("prev_y", False), ik.H("curr_t"), ik.H("curr_y", False),
                              nf.sym("out_t", True))
-    rep.check(isinstance(appended, Rat) and nf.equal(appended, ref2), "R12.4", astq.loc(fi, for_node),
-              f"{fi.key}::R12.4::appended",
-              f"the value appended for out_t is `{appended}`; the property requires the interpolant of the two "
-              f"neighbouring grid states `{ref2}`", "interpolant of (prev_t, prev_y), (curr_t, curr_y) at out_t")
-    # the rest of the output-loop body only emits the output: it leaves every loop-carried variable unchanged, so the
-    # inductive stamps (prev_y at prev_t, curr_y at curr_t) still hold when the next output time is processed
-    for name in ik.CARRIED:
-        v = pt.env.get(name)
-        head = ik.H(name, name not in ("step_size", "prev_t", "curr_t", "prev_error_ratio"))
-        head = nf.sym(f"{name}@head", name in ("step_size", "prev_t", "curr_t", "prev_error_ratio"))
-        rep.check(ik._same(v, head), "R12.4", astq.loc(fi, for_node), f"{fi.key}::R12.4::tail-preserves::{name}",
-                  f"after an output is emitted `{name}` becomes `{v}`: the loop state must not change between the "
-                  f"stepping loop and the next output time, or a second output inside the same step is interpolated from "
-                  f"an inconsistent (time, state) pair", "unchanged by the output step")
+    for pt in tail_paths:
+        tag = "" if len(tail_paths) == 1 else f"::{pt.label()}"
+        if interpolant:
+            w2 = ik.output_writes(pt.env.get("ys"))
+            if not (w2 is not None and len(w2) == 2):
+                raise AnalysisError("R12.4: could not isolate the value appended per output time", where=astq.loc(fi))
+            appended = w2[1][1]
+            rep.check(isinstance(appended, Rat) and nf.equal(appended, ref2), "R12.4", astq.loc(fi, for_node),
+                      f"{fi.key}::R12.4::appended{tag}",
+                      f"the value appended for out_t is `{appended}`; the property requires the interpolant of the two "
+                      f"neighbouring grid states `{ref2}`", "interpolant of (prev_t, prev_y), (curr_t, curr_y) at out_t")
+        # the rest of the output-loop body only emits the output: it leaves every loop-carried variable unchanged, so the
+        # inductive stamps (prev_y at prev_t, curr_y at curr_t) still hold when the next output time is processed
+        for name in ik.CARRIED:
+            v = pt.env.get(name)
+            head = nf.sym(f"{name}@head", name in ("step_size", "prev_t", "curr_t", "prev_error_ratio"))
+            rep.check(ik._same(v, head), "R12.4", astq.loc(fi, for_node), f"{fi.key}::R12.4::tail-preserves::{name}{tag}",
+                      f"after an output is emitted `{name}` becomes `{v}`: the loop state must not change between the "
+                      f"stepping loop and the next output time, or a second output inside the same step is interpolated "
+                      f"from an inconsistent (time, state) pair", "unchanged by the output step")
     # prev pairing on every path
     for adaptive in (False, True):
         for p in _paths(ctx, adaptive):
